@@ -86,5 +86,8 @@ impl<T> Drop for Receiver<T> {
         while !self.object.is_empty() {
             self.recv().unwrap();
         }
+
+        // Messages sent from now on are handed back to their sender.
+        self.object.close();
     }
 }
